@@ -27,13 +27,31 @@ def decode_path(uni: Universe, rel: str):
     return None
 
 
+def decode_extra(scn: dict, uni: Universe, rel: str):
+    """Identity encoded by a path under an extra lookup directory that contributes to an existing root namespace."""
+    for dpath in scn.get("extra_dirs", []):
+        if rel.startswith(dpath + "/"):
+            parts = rel[len(dpath) + 1:].split("/")
+            base = parts[-1].split(".")[:-1]
+            if len(base) == 4:
+                base = base[1:]
+            if len(base) != 3:
+                return None
+            try:
+                return (".".join([dpath.rsplit("/", 1)[-1]] + parts[:-1] + [base[0]]).lower(), int(base[1]), int(base[2]))
+            except ValueError:
+                return None
+    return None
+
+
 class C19(Check):
     PROP = "C19"
     RULE = ("each run = one generated workspace + one logical read (read_namespace of a root with lookups, or read_files of a "
             "target subset) executed three times; between the executions the simulator rewrites, adds or renames files that "
             "the reference model proves to be outside the dependency closure (garbage, every rule violation of the catalogue, "
             "failing @assert, @print, kind/extent/port-ID conflicts with other lookup definitions, empty files, odd directory "
-            "names; malformed file names in a separate sub-mode). One run in six plants an error *inside* the closure so that "
+            "names, twins = other files encoding the name and version of a target that nothing references - beside a read_files "
+            "target or in a second directory of the same root namespace; malformed file names in a separate sub-mode). One run in six plants an error *inside* the closure so that "
             "the 'same error' half is exercised. distinct = hash of (op kind, number of out-of-closure files listed by the "
             "reader, sorted fault kinds); non-trivial = at least one edited/added file lies in a directory the reader scans "
             "and is provably outside the closure")
@@ -58,6 +76,16 @@ class C19(Check):
             mk = lambda: W.rf_op(rng, uni, targets, look)
         scn["reads"] = [mk(), mk(), mk()]
         closure = uni.closure(targets)
+        referenced = {r0 for k0 in closure for r0 in T.def_refs(uni.defs[k0])}
+        pure_targets = [k0 for k0 in targets if k0 not in referenced]
+        twin_dir = None
+        if scn["reads"][0]["op"] == "rn" and rng.random() < 0.5:
+            # a second directory contributing to the *same* root namespace, listed as a lookup directory
+            twin_dir = "w/dx/" + ws["roots"][ri]["name"]
+            scn["extra_dirs"] = [twin_dir]
+            for op in scn["reads"]:
+                op["lookups"] = list(op["lookups"]) + [{"p": twin_dir, "st": rng.choice(["abs", "cwd", "dd"]), "ty": "p"}]
+                rng.shuffle(op["lookups"])
         out_keys = [k for k in uni.defs if k not in closure]
         closure_ids = {(uni.defs[k]["name"].lower(), uni.defs[k]["ver"][0], uni.defs[k]["ver"][1]) for k in closure}
         scanned_dirs = sorted({uni.file_of(k).rsplit("/", 1)[0] for k in uni.defs} | {x["dir"] for x in ws["roots"]})
@@ -76,6 +104,23 @@ class C19(Check):
                     k = rng.choice(out_keys)
                     name, text = F.pick_text_fault(rng)
                     edits.append({"op": "write", "path": uni.file_of(k), "text": text, "kind": "replace:" + name})
+                elif r0 < 0.62 and pure_targets:
+                    # a twin: another file encoding the same name and version as a target that nothing references
+                    k = rng.choice(pure_targets)
+                    d0 = uni.defs[k]
+                    name, text = F.pick_text_fault(rng)
+                    short = d0["name"].split(".")[-1]
+                    sub = "/".join(d0["name"].split(".")[1:-1])
+                    if is_rn:
+                        if twin_dir is None:
+                            continue
+                        base = twin_dir + ("/" + sub if sub else "")
+                        fn = rng.choice(["%s.%d.%d.dsdl", "%s.%d.%d.uavcan", "77.%s.%d.%d.dsdl"]) % (short, d0["ver"][0], d0["ver"][1])
+                    else:
+                        base = uni.file_of(k).rsplit("/", 1)[0]
+                        other_ext = "uavcan" if d0.get("ext", "dsdl") == "dsdl" else "dsdl"
+                        fn = rng.choice(["%s.%d.%d." + other_ext, "4321.%s.%d.%d.dsdl" if d0.get("port") is None else "%s.%d.%d." + other_ext]) % (short, d0["ver"][0], d0["ver"][1])
+                    edits.append({"op": "write", "path": base + "/" + fn, "text": text, "kind": "twin:" + name})
                 elif r0 < 0.8:
                     # a brand-new file outside the closure
                     cand_dirs = [d for d in scanned_dirs if not (is_rn and (d == tdir or d.startswith(tdir + "/")))]
@@ -134,7 +179,13 @@ class C19(Check):
                 raise InvalidScenario("closure not visible")
             closure_files = {uni.file_of(k) for k in closure}
             closure_ids = {(uni.defs[k]["name"].lower(), uni.defs[k]["ver"][0], uni.defs[k]["ver"][1]) for k in closure}
-            scanned = [uni.roots[i]["dir"] for i in sorted(vis)]
+            scanned = [uni.roots[i]["dir"] for i in sorted(vis)] + list(scn.get("extra_dirs", []))
+            referenced_ids = set()
+            for k0 in closure:
+                for r0 in T.def_refs(uni.defs[k0]):
+                    if r0 in uni.defs:
+                        referenced_ids.add((uni.defs[r0]["name"].lower(), uni.defs[r0]["ver"][0], uni.defs[r0]["ver"][1]))
+            target_files = {uni.file_of(k0) for k0 in targets}
             is_rn = scn["reads"][0]["op"] == "rn"
             tdir = scn["reads"][0]["root"]["p"] if is_rn else None
             closure_err = False
@@ -156,9 +207,11 @@ class C19(Check):
                             raise InvalidScenario("edit touches the closure: " + p)
                         if is_rn and (p.startswith(tdir + "/")):
                             raise InvalidScenario("edit inside the target root of read_namespace: " + p)
-                        ident = decode_path(uni, p)
+                        ident = decode_path(uni, p) or decode_extra(scn, uni, p)
                         if ident is not None and ident in closure_ids:
-                            raise InvalidScenario("edit collides with a closure identity: " + p)
+                            # allowed only for a twin of a target that no closure member references (nothing resolves it)
+                            if ident in referenced_ids or p in target_files:
+                                raise InvalidScenario("edit collides with a referenced closure identity: " + p)
                         if e.get("kind") == "restore":
                             k = [k for k in uni.defs if uni.file_of(k) == p]
                             if not k:
